@@ -17,7 +17,9 @@
 (***************************************************************************)
 EXTENDS Containers, TLC
 
-CONSTANT MaxOps
+CONSTANT MaxOps,
+         CVariant    \* "faithful" | "slices_swapped" (the deque's wrap-around slice written first) |
+                     \* "bits_raw_words" (a bit sequence written as its storage words, stale bits behind the end included)
 
 U8T == [k |-> "int", w |-> 1, s |-> FALSE, b |-> TRUE, sz |-> 1]
 U16T == [k |-> "int", w |-> 2, s |-> FALSE, b |-> TRUE, sz |-> 2]
@@ -84,13 +86,24 @@ Spec == Init /\ [][Next]_vars
 RingEncode(r) ==
   LET sl == RingSlices(r)
       Cat(xs) == FoldLeft(LAMBDA a, x : a \o x, <<>>, xs)
-  IN CompactEnc(FromNat(r.len, 4)) \o Cat(sl[1]) \o Cat(sl[2])
+  IN IF CVariant = "slices_swapped" THEN CompactEnc(FromNat(r.len, 4)) \o Cat(sl[2]) \o Cat(sl[1])
+     ELSE CompactEnc(FromNat(r.len, 4)) \o Cat(sl[1]) \o Cat(sl[2])
 
 DequeLayoutFree == RingEncode(ring) = Enc(E0, DequeT, RingLogical(ring))
 GhostAgrees == RingLogical(ring) = Logical(E0, DequeT, hist)
 MapOrderFree == /\ map = Logical(E0, MapT, mhist)
                 /\ StrictlyIncreasing(LAMBDA x, y : Less(E0, U8T, x[1], y[1]), map)
                 /\ Dec(E0, MapT, Enc(E0, MapT, map), 0).v = map
+\* what the bit-sequence encoder writes (one-byte words, most significant bit first): the logical bits re-chunked from
+\* the logical start and padded with zeros - not the storage words as they are
+BitsEncode(b) ==
+  LET lg == BitsLogical(b)
+      nw == BitWords(b.len, 1)
+      bit(i) == IF i <= b.len THEN lg[i]
+                ELSE IF CVariant = "bits_raw_words" /\ b.head + i <= Len(b.bits) THEN b.bits[b.head + i] ELSE 0
+      byte(q) == FoldLeft(LAMBDA a, j : 2 * a + bit(8 * (q - 1) + j), 0, <<1, 2, 3, 4, 5, 6, 7, 8>>)
+  IN CompactEnc(FromNat(b.len, 4)) \o [q \in 1..nw |-> byte(q)]
+BitsStoreFree == BitsEncode(bits) = Enc(E0, BitsT, BitsLogical(bits))
 \* the encoder sees only the logical bits: whatever lies outside them in the store is not encoded
 BitsOffsetFree ==
   LET lg == BitsLogical(bits)
